@@ -3236,7 +3236,7 @@ func (t *Table) AddNestedTable(row, col int, config *TableConfig) (*Table, error
 					{
 						Runs: []Run{
 							{
-								Text: Text{Content: ""},
+								Text: Text{Content: "", Space: "preserve"},
 							},
 						},
 					},
